@@ -901,7 +901,7 @@ func runCase(o *vh.Opts, c *Case, sum *vh.Summary, cw *vh.CaseWriter, verbose bo
 		toks, ok := sx.XMLTokens(text)
 		doc, ok2 := sx.XMLFromTokens(toks)
 		if ok && ok2 {
-			cw.Add(fmt.Sprintf("C17Stream (XCase (mkXCase %s %s %s %s %s %s ObsEOF))", sx.XDocCoq(doc), sx.XToksCoq(toks), c.Target.Coq(),
+			cw.Add(fmt.Sprintf("C17Stream (XCase (mkXCase %s %s %s [] %s %s %s ObsEOF))", sx.XDocCoq(doc), sx.XToksCoq(toks), c.Target.Coq(),
 				vh.CoqHex([]byte(xp)), vh.CoqList(rel), vh.CoqList(ds)), c)
 		}
 	} else {
@@ -910,7 +910,7 @@ func runCase(o *vh.Opts, c *Case, sum *vh.Summary, cw *vh.CaseWriter, verbose bo
 		if ok && ok2 {
 			var sb strings.Builder
 			doc.Coq(&sb)
-			cw.Add(fmt.Sprintf("C17Stream (JCase (mkJCase (%s) %s %s %s %s %s ObsEOF))", sb.String(), sx.JToksCoq(toks), c.Target.Coq(),
+			cw.Add(fmt.Sprintf("C17Stream (JCase (mkJCase (%s) %s %s [] %s %s %s ObsEOF))", sb.String(), sx.JToksCoq(toks), c.Target.Coq(),
 				vh.CoqHex([]byte(xp)), vh.CoqList(rel), vh.CoqList(ds)), c)
 		}
 	}
